@@ -40,7 +40,9 @@ type c03Cfg struct {
 	Opt    string // none skipper parser
 }
 
-func (c c03Cfg) String() string { return fmt.Sprintf("size=%d/%s/%s/%s", c.Size, c.Reader, c.API, c.Opt) }
+func (c c03Cfg) String() string {
+	return fmt.Sprintf("size=%d/%s/%s/%s", c.Size, c.Reader, c.API, c.Opt)
+}
 
 // progReader measures how far the demuxer has consumed the input.
 type progReader struct {
